@@ -466,6 +466,9 @@ def unfuse_legs(a, axes) -> 'Tensor':
     if axes_hf:
         meta, struct, slices, nlegs, hfs = _meta_unfuse_hard(a.config, a.struct, a.slices, tuple(axes_hf), tuple(a.hfs))
         data = _unmerge(a.config, a._data, meta)
+        # nlegs follows the native order of unfused legs; axes_mf and axes_uf follow the (lazily transposed) logical order
+        nlegs = dict(zip(sorted(axes_hf), nlegs))
+        nlegs = tuple(nlegs[hi] for hi in axes_hf)
 
         for unfused, n in zip(nlegs[::-1], axes_mf[::-1]):
             mfs = mfs[:n] + [(1,)] * unfused + mfs[n+1:]
